@@ -281,4 +281,4 @@ func runOpExt2(f []string) (string, bool) {
 	return runOpExt3(f)
 }
 
-func extMain(args []string) bool { return false }
+func extMain(args []string) bool { return extMainConc(args) }
